@@ -44,9 +44,12 @@ static int hexmax = 8192;
 
 /* ------------------------------------------------------------------ heap tracking (plain builds) */
 #ifdef VERIF_HEAPTRACK
-extern void *__libc_malloc(size_t), *__libc_calloc(size_t, size_t), *__libc_realloc(void *, size_t);
-extern void __libc_free(void *);
-extern void *__libc_memalign(size_t, size_t);
+/* Heap accounting of SNOOPY'S OWN allocations: the link uses -Wl,--wrap=malloc,... so only calls made from the objects of
+ * this executable (snoopy's sources and the harness) are seen; libc-internal allocations (NSS, stdio, locale caches) are not. */
+extern void *__real_malloc(size_t), *__real_calloc(size_t, size_t), *__real_realloc(void *, size_t);
+extern void __real_free(void *);
+extern char *__real_strdup(const char *), *__real_strndup(const char *, size_t);
+extern ssize_t __real_getline(char **, size_t *, FILE *);
 #define HT_N 65536
 static void *ht_ptr[HT_N]; static size_t ht_sz[HT_N];
 static volatile int ht_on = 0; static long ht_live = 0, ht_bytes = 0, ht_allocs = 0;
@@ -60,11 +63,13 @@ static void ht_del(void *p) {
     size_t h = ((uintptr_t)p >> 4) % HT_N;
     for (size_t i = 0; i < HT_N; i++) { size_t k = (h + i) % HT_N; if (!ht_ptr[k]) return; if (ht_ptr[k] == p) { ht_ptr[k] = (void *)1; ht_live--; ht_bytes -= ht_sz[k]; return; } }
 }
-void *malloc(size_t n) { void *p = __libc_malloc(n); ht_add(p, n); return p; }
-void *calloc(size_t a, size_t b) { void *p = __libc_calloc(a, b); ht_add(p, a * b); return p; }
-void *realloc(void *q, size_t n) { ht_del(q); void *p = __libc_realloc(q, n); ht_add(p, n); return p; }
-void free(void *p) { ht_del(p); __libc_free(p); }
-void *memalign(size_t a, size_t n) { void *p = __libc_memalign(a, n); ht_add(p, n); return p; }
+void *__wrap_malloc(size_t n) { void *p = __real_malloc(n); ht_add(p, n); return p; }
+void *__wrap_calloc(size_t a, size_t b) { void *p = __real_calloc(a, b); ht_add(p, a * b); return p; }
+void *__wrap_realloc(void *q, size_t n) { ht_del(q); void *p = __real_realloc(q, n); ht_add(p, n); return p; }
+void __wrap_free(void *p) { ht_del(p); __real_free(p); }
+char *__wrap_strdup(const char *s) { char *p = __real_strdup(s); ht_add(p, p ? strlen(p) + 1 : 0); return p; }
+char *__wrap_strndup(const char *s, size_t n) { char *p = __real_strndup(s, n); ht_add(p, p ? strlen(p) + 1 : 0); return p; }
+ssize_t __wrap_getline(char **l, size_t *n, FILE *f) { void *old = *l; ssize_t r = __real_getline(l, n, f); if (*l != old) { ht_del(old); ht_add(*l, *n); } return r; }
 #endif
 
 /* ------------------------------------------------------------------ small utilities */
